@@ -4006,12 +4006,15 @@ impl Decoder {
                     // otherwise we'd have gotten OutputFull already.
                     // XXX: is the above comment actually true for UTF-8 itself?
                     // TODO: Consider having fewer bound checks here.
-                    dst[total_written] = 0xEFu8;
-                    total_written += 1;
-                    dst[total_written] = 0xBFu8;
-                    total_written += 1;
-                    dst[total_written] = 0xBDu8;
-                    total_written += 1;
+                    // Bound-check all three bytes before writing any of them: if
+                    // `dst` is shorter than the documented minimum, the panic must
+                    // not leave a partial U+FFFD behind (`decode_to_str` passes the
+                    // bytes of a `str` here).
+                    let replacement = &mut dst[total_written..total_written + 3];
+                    replacement[0] = 0xEFu8;
+                    replacement[1] = 0xBFu8;
+                    replacement[2] = 0xBDu8;
+                    total_written += 3;
                 }
             }
         }
